@@ -2,6 +2,8 @@
 #define COND_EQ_H
 
 #include "mp/common.h"
+#include <cmath>
+
 #include "mp/flat/redef/redef_base.h"
 #include "mp/flat/constr_std.h"
 
@@ -84,16 +86,19 @@ public:
                                          1.0 ) );
       auto bNt = GetMC().ComputeBoundsAndType(con.GetBody());
       double cmpEps = GetMC().ComparisonEps( bNt.get_result_type() );
+      double rhs_lt = con.rhs() - cmpEps, rhs_gt = con.rhs() + cmpEps;
+      if (var::INTEGER == bNt.get_result_type()) {
+        rhs_lt = std::ceil(con.rhs()) - 1.0;    // rhs can be fractional
+        rhs_gt = std::floor(con.rhs()) + 1.0;   // (if not preprocessed)
+      }
       {
         GetMC().AddConstraint(IndicatorConstraint< AlgCon<-1> >(
                                 newvars[0], 1,
-                              { con.GetBody(),
-                                con.rhs() - cmpEps }));
+                              { con.GetBody(), rhs_lt }));
       }
       GetMC().AddConstraint(IndicatorConstraint< AlgCon<1> >(
                               newvars[1], 1,
-                            { con.GetBody(),
-                              con.rhs() + cmpEps }));
+                            { con.GetBody(), rhs_gt }));
     } // else, skip
   }
 
